@@ -40,23 +40,22 @@ def classify(t):
         a, o, b = call_args(t)
         op = agg_variant(strip_refs(o))
         opn = op[1] if op else None
+        # g := v1 > v2, l := v1 < v2 ; the non-strict operators are the negations of the opposite strict ones (the order is total: C03)
         if version_of(a, 2) and version_of(b, 3):
-            return {"GT": "g", "LT": "l"}.get(opn), False
+            return {"GT": ("g", False), "LT": ("l", False), "LE": ("g", True), "GE": ("l", True)}.get(opn, (None, False))
         if version_of(a, 3) and version_of(b, 2):
-            return {"LT": "g", "GT": "l"}.get(opn), False
+            return {"LT": ("g", False), "GT": ("l", False), "GE": ("g", True), "LE": ("l", True)}.get(opn, (None, False))
     def str_order(t, name):
         if not (is_call(t) and "PartialOrd" in t[1] and mir.norm_path(t[1]).endswith("::" + name)):
             return False
         tys = [g for g in t[2] if not g.startswith("'")]
         return ("str" in t[1].split("for")[-1] and not tys) or (bool(tys) and all(g in ("str", "&str", "std::string::String") for g in tys))
-    if str_order(t, "lt"):
-        a, b = strip_refs(call_args(t)[0]), strip_refs(call_args(t)[1])
-        if (a, b) == (("param", 2), ("param", 3)):
-            return "s", False
-    if str_order(t, "gt"):
-        a, b = strip_refs(call_args(t)[0]), strip_refs(call_args(t)[1])
-        if (a, b) == (("param", 3), ("param", 2)):
-            return "s", False
+    # s := pkg1 < pkg2 as strings: lt(p1,p2), gt(p2,p1) and the negations ge(p1,p2), le(p2,p1)
+    for name, order, neg in (("lt", (2, 3), False), ("gt", (3, 2), False), ("ge", (2, 3), True), ("le", (3, 2), True)):
+        if str_order(t, name):
+            a, b = strip_refs(call_args(t)[0]), strip_refs(call_args(t)[1])
+            if (a, b) == (("param", order[0]), ("param", order[1])):
+                return "s", neg
     return None, False
 
 
@@ -84,11 +83,11 @@ def run(ctx):
     for p in ret_paths(paths):
         conds = {}
         for c in p.conds():
-            k, _ = classify(c.term)
+            k, neg = classify(c.term)
             if k is None:
                 unknown.append(term_str(c.term)[:120])
                 continue
-            conds[k] = (c.fact == ("eq", True))
+            conds[k] = (c.fact == ("eq", True)) != neg
         r = p.end[1]
         if is_none(r):
             out = "None"
